@@ -8,6 +8,7 @@ import (
 	"reflect"
 	"strings"
 	"sync"
+	"time"
 	"unsafe"
 
 	restful "github.com/emicklei/go-restful/v3"
@@ -30,8 +31,35 @@ func init() {
 func InstallHooks() { restful.SimHook = repoHook }
 
 func repoHook(kind int, site string, a interface{}, write bool) {
+	switch kind {
+	case 4: // time.Now in an instrumented tree
+		*(a.(*time.Time)) = clockEpoch.Add(clockNow())
+		return
+	case 6: // a timer became pending in an instrumented tree
+		if h, ok := a.(timerHandle); ok {
+			timersAdd(h)
+		}
+		return
+	case 5: // time.Sleep in an instrumented tree: the clock moves, the task yields
+		clockAdvance(a.(time.Duration))
+		if t := Cur(); t != nil && t.NoYield == 0 {
+			t.Yield(SiteSleep, KYield, 0, 0)
+		}
+		return
+	}
 	t := Cur()
-	if t == nil || t.NoYield > 0 {
+	if t == nil {
+		return
+	}
+	if (MayFork || UsesClock) && taskGID(t) != goid() {
+		// a goroutine the library started itself: not a task, nothing of the task may be touched from here
+		foreignYields.Add(1)
+		if kind == restful.SimKindLock || kind == 3 {
+			return
+		}
+		return
+	}
+	if t.NoYield > 0 {
 		return
 	}
 	s, ok := siteByName[site]
